@@ -18,6 +18,8 @@ pub mod c14;
 #[cfg(feature = "net")]
 pub mod c15;
 pub mod c16;
+#[cfg(feature = "net")]
+pub mod c17;
 pub mod c19;
 pub mod c20;
 
@@ -40,6 +42,8 @@ pub fn dispatch(a: &Args) -> Option<Report> {
         #[cfg(feature = "net")]
         "C15" => c15::run(a),
         "C16" => c16::run(a),
+        #[cfg(feature = "net")]
+        "C17" => c17::run(a),
         "C19" => c19::run(a),
         "C20" => c20::run(a),
         _ => None,
